@@ -2,6 +2,7 @@ package selection
 
 import (
 	"fmt"
+	"grog/internal/dag"
 	"grog/internal/label"
 	"grog/internal/model"
 	"slices"
@@ -49,17 +50,25 @@ func New(
 	return &Selector{Patterns: patterns, Tags: tags, ExcludeTags: excludeTags, TargetType: targetType}
 }
 
+// nodeMatchesFilters checks the patterns against the node's own label and the type, tag and
+// exclude-tag filters against the target the node stands for: an alias passes the filters
+// if and only if the target it resolves to passes them.
 func (s *Selector) nodeMatchesFilters(
+	graph *dag.DirectedTargetGraph,
 	node model.BuildNode,
 ) bool {
-	target, ok := node.(*model.Target)
+	actual := standsFor(graph, node)
+	if actual == nil {
+		return false
+	}
+	target, ok := actual.(*model.Target)
 	if !ok {
-		// For non-Target nodes (like Alias, Environment), still check pattern matching
+		// For other non-Target nodes, still check pattern matching
 		return s.nodeMatchesPatterns(node)
 	}
 
 	return s.targetMatchesTypeSelection(target) &&
-		s.targetMatchesPatterns(target) &&
+		s.nodeMatchesPatterns(node) &&
 		s.targetTagsMatch(target) &&
 		!s.targetExcludeTagsMatch(target)
 }
